@@ -8,6 +8,7 @@ import (
 	"encoding/base64"
 	"errors"
 	"strings"
+	"unicode/utf8"
 )
 
 const hexchars = "0123456789abcdef"
@@ -310,6 +311,13 @@ func jsStringEscape(w strWriter, s string) error {
 			esc = `\u2028`
 		case c == '\u2029':
 			esc = `\u2029`
+		case c == utf8.RuneError:
+			// A byte that is not part of a UTF-8 encoding is replaced
+			// with the Unicode replacement character, as encoding/json
+			// does, so that the string does not contain invalid UTF-8.
+			if _, size := utf8.DecodeRuneInString(s[i:]); size == 1 {
+				esc = `\ufffd`
+			}
 		}
 		if esc == "" {
 			continue
